@@ -130,20 +130,22 @@ Inductive err :=
 | ELimit (what : N)        (* 0 depth 1 name 2 consts 3 code 4 nested 5 upvals 6 lines 7 globals 8 global-name 9 string *)
 | EFuel.
 
-Record st := St { s_in : list N; s_alloc : N }.
+(* s_alloc: sum of the capacities requested so far; s_max: largest single request so far *)
+Record st := St { s_in : list N; s_alloc : N; s_max : N }.
 Inductive res (A : Type) :=
 | Ok (a : A) (s : st)
-| Err (e : err) (alloc : N)
-| Crash (alloc : N).        (* debug_assert! failure (only with debug assertions on) *)
+| Err (e : err) (alloc mx : N)
+| Crash (alloc mx : N).     (* debug_assert! failure (only with debug assertions on) *)
 Arguments Ok {A}. Arguments Err {A}. Arguments Crash {A}.
 Definition M (A : Type) := st -> res A.
 
 Definition ret {A} (a : A) : M A := fun s => Ok a s.
 Definition bind {A B} (m : M A) (k : A -> M B) : M B :=
-  fun s => match m s with Ok a s' => k a s' | Err e al => Err e al | Crash al => Crash al end.
-Definition fail {A} (e : err) : M A := fun s => Err e (s_alloc s).
-Definition crash {A} : M A := fun s => Crash (s_alloc s).
-Definition alloc (n : N) : M unit := fun s => Ok tt (St (s_in s) (s_alloc s + n)).
+  fun s => match m s with Ok a s' => k a s' | Err e al mx => Err e al mx | Crash al mx => Crash al mx end.
+Definition fail {A} (e : err) : M A := fun s => Err e (s_alloc s) (s_max s).
+Definition crash {A} : M A := fun s => Crash (s_alloc s) (s_max s).
+Definition alloc (n : N) : M unit :=
+  fun s => Ok tt (St (s_in s) (s_alloc s + n) (N.max (s_max s) n)).
 
 Fixpoint take_n (n : N) (bs : list N) : option (list N * list N) :=
   if n =? 0 then Some ([], bs)
@@ -155,8 +157,8 @@ Fixpoint take_n (n : N) (bs : list N) : option (list N * list N) :=
 (* cursor.read_exact into a buffer that already exists *)
 Definition rd_exact (n : N) : M (list N) :=
   fun s => match take_n n (s_in s) with
-           | Some (h, t) => Ok h (St t (s_alloc s))
-           | None => Err EEof (s_alloc s)
+           | Some (h, t) => Ok h (St t (s_alloc s) (s_max s))
+           | None => Err EEof (s_alloc s) (s_max s)
            end.
 Definition rd_le (k : nat) : M N := bind (rd_exact (N.of_nat k)) (fun h => ret (le_val h)).
 (* vec![0u8; n] then read_exact *)
@@ -324,18 +326,26 @@ Inductive result := ROk (f : func) | RErr (e : err) | RCrash.
 
 (* deserialize: dbg = debug assertions on (dev profile) / off (release) *)
 Definition read (dbg : bool) (bs : list N) : result :=
-  match rd_program dbg (St bs 0) with
+  match rd_program dbg (St bs 0 0) with
   | Ok f _ => ROk f
-  | Err e _ => RErr e
-  | Crash _ => RCrash
+  | Err e _ _ => RErr e
+  | Crash _ _ => RCrash
   end.
 
 (* total capacity the reader requested while reading bs, whatever the outcome *)
 Definition read_alloc (dbg : bool) (bs : list N) : N :=
-  match rd_program dbg (St bs 0) with
+  match rd_program dbg (St bs 0 0) with
   | Ok _ s => s_alloc s
-  | Err _ a => a
-  | Crash a => a
+  | Err _ a _ => a
+  | Crash a _ => a
+  end.
+
+(* the largest single capacity request made while reading bs *)
+Definition read_max_request (dbg : bool) (bs : list N) : N :=
+  match rd_program dbg (St bs 0 0) with
+  | Ok _ s => s_max s
+  | Err _ _ m => m
+  | Crash _ m => m
   end.
 
 (* ------------------------------------------------------------------ well-formedness *)
